@@ -1,6 +1,9 @@
 package verifh
 
 import (
+	"database/sql/driver"
+	"errors"
+
 	"gorm.io/gorm/internal/verifrt"
 )
 
@@ -1056,9 +1059,18 @@ func N_C12_SliceOwners(tier int) int {
 	return 2
 }
 
-func H_C12_SliceOwners(shape int) {
-	nops := 1 + shape
-	fullInit := shape == 0
+func H_C12_SliceOwners(shape int) { c12SliceOwners(1+shape, shape == 0, false) }
+
+// ---- a statement of the operation is refused by the database: the operation
+// reports it (an operation that returns nil has stored the links it defines)
+
+func N_C12_Refused(tier int) int { return 1 }
+
+func H_C12_Refused(shape int) { c12SliceOwners(1, false, true) }
+
+var errRefused = errors.New("verif: statement refused")
+
+func c12SliceOwners(nops int, fullInit bool, faults bool) {
 	mdb := NewMemDB()
 	speakers := mdb.AddTable("speakers", []string{"id", "name"}, []string{"id"})
 	speakers.AddRow(1, "s")
@@ -1090,12 +1102,28 @@ func H_C12_SliceOwners(shape int) {
 	s := NewStore()
 	s.OnExecE = mdb.Exec
 	s.OnQuery = mdb.Query
+	failAt, execs := 0, 0
+	if faults {
+		// the failAt-th write statement of the operation is refused (not applied)
+		failAt = verifrt.Concretize(verifrt.Intn("fail_at", 1, 6), 1, 6)
+		s.OnExecE = func(text string, args []driver.Value) (Result, error) {
+			execs++
+			if execs == failAt {
+				return Result{}, errRefused
+			}
+			return mdb.Exec(text, args)
+		}
+	}
 	db := openReal(stubDialector{nullDefault: true}, s, nil)
 	var kinds []int
 	defer func() { mdb.Dump(c12Label("many2many-slice", kinds, false)) }()
 	for k := 0; k < nops; k++ {
 		tag := "op" + string([]byte{byte('0' + k)})
 		kind := verifrt.Concretize(verifrt.Intn(tag+"_kind", 0, 3), 0, 3)
+		if faults {
+			// Replace on a slice of records is a listed known finding of H_C12_SliceOwners
+			verifrt.Assume(kind != 1)
+		}
 		kinds = append(kinds, kind)
 		nt := 0
 		switch kind {
@@ -1127,6 +1155,10 @@ func H_C12_SliceOwners(shape int) {
 			err = a.Delete(args...)
 		case 3:
 			err = a.Clear()
+		}
+		if faults && err != nil {
+			verifrt.Reach("refusal-reported")
+			return
 		}
 		verifrt.Assert(err == nil, "C12.error:"+label)
 		var ids []int
